@@ -80,7 +80,10 @@ def _c09(payload):
         for k in ks:
             if m._clock_struct.model_is_finished:
                 break
-            r = m.run_model(num_steps=int(k), initialize_model=False)
+            # the "continue" flags are handed over as the literal False, as numpy.bool_ False or as 0 (what `k == 0` on a numpy integer, or a
+            # flag column of a scenario table, gives): all mean "do not re-initialise"
+            no = (False, np.False_, 0)[(j + calls) % 3] if j % 3 == 2 else False
+            r = m.run_model(num_steps=(np.int64(k) if j % 3 == 2 and calls % 2 else int(k)), initialize_model=no, process_outputs=no)
             calls += 1
             if busy and calls <= 8:
                 _other_model(objs, cfg, calls)
@@ -691,8 +694,15 @@ def worker_C16(payload):
             # simulation over a window shifted by some years; the configuration is as valid as before
             objs = sim.build_objects(cfg)
             try:
-                yrs = int(payload["prehistory"])
-                st = pd.Timestamp(cfg["start"]) + pd.DateOffset(years=yrs); en = pd.Timestamp(cfg["end"]) + pd.DateOffset(years=yrs)
+                ph = payload["prehistory"]
+                st = pd.Timestamp(cfg["start"]); en = pd.Timestamp(cfg["end"])
+                if ph == "shorter":            # same start, ending (about) half-way, at least one year earlier when the window allows
+                    en = st + (en - st) / 2 if (en - st).days < 800 else en - pd.DateOffset(years=max(1, (en.year - st.year) // 2))
+                    en = en.normalize()
+                elif ph == "later_start":      # same end, starting one year later
+                    st = st + pd.DateOffset(years=1)
+                else:
+                    st = st + pd.DateOffset(years=int(ph)); en = en + pd.DateOffset(years=int(ph))
                 pre = sim.AquaCropModel(**dict(objs, sim_start_time=st.strftime("%Y/%m/%d"), sim_end_time=en.strftime("%Y/%m/%d")))
                 pre.run_model(till_termination=True)
             except Exception:
